@@ -15,11 +15,13 @@ import (
 	"bytes"
 	"encoding/binary"
 	"fmt"
+	"net"
 	"os"
 	"os/exec"
 	"path/filepath"
 	"strings"
 	"sync"
+	"sync/atomic"
 	"time"
 
 	"verifharness/fb"
@@ -298,6 +300,9 @@ func genC17(ctx *Ctx) {
 		p := startC17(cfg)
 		full := ci == 0 || ctx.Thorough
 		c17Client(ctx, p, cfg, r, full)
+		if full {
+			c17Storm(ctx, p, cfg)
+		}
 		if p.alive() && (full || cfg.name == "max-dse2") {
 			c17Backend(ctx, p, cfg, r, full)
 		}
@@ -631,5 +636,62 @@ func c17Backend(ctx *Ctx, p *c17Proc, cfg c17Cfg, r *hv.Rng, full bool) {
 		}
 		p.be.EventRaw(raw)
 		p.verdict(ctx, 10, fmt.Sprintf("EVENT body=%x", body), true, "hostile-event")
+	}
+}
+
+
+// ---- connection storms: the reader and the writer of one client connection failing together ----
+// Each hostile connection pipelines valid requests the proxy answers by itself (so its writer
+// goroutine has work), then a frame that fails decoding (the reader goroutine fails), and is then
+// reset (SO_LINGER 0) without reading anything (the writer fails on its own).  Other shapes: reset
+// only, garbage only, half-close.  Many connections at once for a few seconds, then the verdict.
+func c17Storm(ctx *Ctx, p *c17Proc, cfg c17Cfg) {
+	v := byte(cfg.clients[0])
+	options := frameBytes(v, 0, 1, byte(primitive.OpCodeOptions), nil)
+	startup := frameBytes(v, 0, 0, byte(primitive.OpCodeStartup), encBody(primitive.ProtocolVersion(v), message.NewStartup()))
+	sysq := frameBytes(v, 0, 2, byte(primitive.OpCodeQuery), encBody(primitive.ProtocolVersion(v), &message.Query{Query: "SELECT * FROM system.local", Options: &message.QueryOptions{}}))
+	garbage := frameBytes(v, 0, 3, byte(primitive.OpCodeQuery), []byte{0, 0})
+	shapes := []struct {
+		name  string
+		bytes []byte
+		reset bool
+	}{
+		{"answers-pending+undecodable-frame+reset", append(append(append(bytes.Repeat(options, 6), startup...), bytes.Repeat(sysq, 4)...), garbage...), true},
+		{"answers-pending+reset", append(bytes.Repeat(options, 8), startup...), true},
+		{"undecodable-frame+reset", garbage, true},
+		{"answers-pending+undecodable-frame+close", append(bytes.Repeat(options, 6), garbage...), false},
+	}
+	for _, sh := range shapes {
+		if !p.alive() {
+			return
+		}
+		dur := time.Duration(ctx.Scale(1500, 10000)) * time.Millisecond
+		var wg sync.WaitGroup
+		var conns atomic.Int64
+		stop := time.Now().Add(dur)
+		for w := 0; w < 8; w++ {
+			wg.Add(1)
+			go func() {
+				defer wg.Done()
+				for time.Now().Before(stop) && p.alive() {
+					c, err := net.DialTimeout("tcp", p.addr, time.Second)
+					if err != nil {
+						time.Sleep(time.Millisecond)
+						continue
+					}
+					_, _ = c.Write(sh.bytes)
+					if sh.reset {
+						if tc, ok := c.(*net.TCPConn); ok {
+							_ = tc.SetLinger(0)
+						}
+					}
+					_ = c.Close()
+					conns.Add(1)
+				}
+			}()
+		}
+		wg.Wait()
+		ctx.Count("storm-connections:" + sh.name + fmt.Sprintf(":%dk", conns.Load()/1000))
+		p.verdict(ctx, 9, "storm "+sh.name, true, "storm")
 	}
 }
